@@ -24,7 +24,7 @@ EXPLANATION = (
     ' Added after seed round 3: signal_restore is understood also when folded into a loop over (signal, saved handler) pairs and the restored expression may replace only a None / false saved value by SIG_DFL; (5) inside the batch loop of process_input the top widget (and anything derived from it) is read afresh for every event.'
     ' Round 4: a signal that signal_init() does not replace (SIGCONT) is restored only under a flag raised where it is replaced; the Twisted capturing wrapper catches BaseException (C13.1).'
     ' Round 5: (7) TrioEventLoop takes off at most the one ExceptionGroup layer its own nursery adds; (8) PAIR: every hook MainLoop.start() registers (idle callback, input watchers, descriptor-change signal, started screen) is released by stop() on all its normal paths and _run() passes stop() on the normal and on the exceptional exit (before fix 35c16b8 an exception-terminated run() left the watchers and the idle redraw in the event loop); a `finally` around event_loop.run() must not contain return / raise / break.'
-    ' Round 6: (9) MEMO: every PopUpTarget entry point calls _update_overlay() before it routes to _current_widget (a batch of events is delivered without a redraw in between); (11) start() drops the cached screen size (fix for two sessions with a resize in between).'
+    ' Round 6: (9) MEMO: every PopUpTarget entry point calls _update_overlay() before it routes to _current_widget (a batch of events is delivered without a redraw in between); (11) start() drops the cached screen size (fix for two sessions with a resize in between); (12) the flag that suppresses the signal-key snapshot in _start() is lowered where _stop() restores the snapshot (fix 69fb61c).'
 )
 NOT_DECIDED = "That the terminal really ends up in its initial modes (needs a pty), delivery order across reads, redraw-before-wait timing, failures inside MainLoop.start()/stop() themselves."
 ASSUMPTIONS = ["glib_loop.py cannot be imported here; its reports are informational only."]
@@ -579,6 +579,41 @@ def rule_size_reasked(ctx: Ctx) -> RuleResult:
     return rr
 
 
+def rule_snapshot_per_session(ctx: Ctx) -> RuleResult:
+    """'original tty settings restored' for *every* session: Screen._start() snapshots the tty signal keys only when
+    the application has not set them itself (`if not self.<flag>:`), and the flag is raised by every
+    tty_signal_keys() call that changes something - including the one _stop() makes to restore the snapshot.  So the
+    restoring branch of _stop() has to lower the flag again, otherwise the second session takes no snapshot and its
+    stop() writes the first session's keys over whatever the terminal had in between (fix 69fb61c).  Checked for
+    every display module that has this _start / _stop pair."""
+    p = ctx.p
+    rr = RuleResult("PAIR", "C12.12", "the flag that suppresses the signal-key snapshot in _start() is lowered again where _stop() restores the snapshot", floor=1)
+    for cq in ("urwid.display._posix_raw_display.Screen", "urwid.display.curses.Screen"):
+        if cq not in p.classes:
+            continue
+        cls = p.classes[cq]
+        st, sp = cls.methods.get("_start"), cls.methods.get("_stop")
+        if st is None or sp is None:
+            continue
+        flags = set()
+        for t in [n for n in st.own_nodes() if isinstance(n, ast.If)]:
+            if isinstance(t.test, ast.UnaryOp) and isinstance(t.test.op, ast.Not) and isinstance(t.test.operand, ast.Attribute) and any(isinstance(c, ast.Call) and callee_name(c) == "tty_signal_keys" for b in t.body for c in ast.walk(b)):
+                flags.add(t.test.operand.attr)
+        if not flags:
+            if cq == PSX:
+                raise AnalysisError("Screen._start: the flag-guarded snapshot of the tty signal keys was not found")
+            continue
+        cfg = cfg_of(sp)
+        restores = nodes_where(cfg, lambda c: isinstance(c, ast.Call) and callee_name(c) == "tty_signal_keys" and c.args)
+        for f in sorted(flags):
+            lowers = [n for n in cfg.nodes if isinstance(n.ast, ast.Assign) and isinstance(n.ast.value, ast.Constant) and n.ast.value.value is False and any(isinstance(t, ast.Attribute) and t.attr == f for t in n.ast.targets)]
+            ok = bool(restores) and all(cfg.must_pass(r, lowers, ends=[cfg.exit], labels=("n", "T", "F")) for r in restores)
+            rr.inst(f"{short(sp)}: {f}", True, {"stop": short(sp), "flag": f, "lowered_after_restore": ok})
+            if not ok:
+                rr.add(finding("PAIR", sp, restores[0].stmt if restores else sp.node, f"_stop() restores the signal keys with tty_signal_keys(), which raises self.{f}, and does not lower it again: the next _start() skips its snapshot (`if not self.{f}`) and the next _stop() writes this session's keys over whatever the terminal was set to in between", construct=f"restore leaves {f} raised"))
+    return rr
+
+
 def run(ctx: Ctx):
     return [
         rule_run_restores(ctx),
@@ -591,6 +626,7 @@ def run(ctx: Ctx):
         rule_exception_identity(ctx),
         rule_popup_fresh(ctx),
         rule_size_reasked(ctx),
+        rule_snapshot_per_session(ctx),
         _redraw_armed(ctx),
     ]
 
@@ -600,6 +636,7 @@ from ..mutants import Mut  # noqa: E402
 _M = "urwid/event_loop/main_loop.py"
 _P = "urwid/display/_posix_raw_display.py"
 MUTANTS = [
+    Mut("signal-keys-snapshot-once", _P, "urwid.display._posix_raw_display.Screen._stop", "            self._signal_keys_set = False\n", "", "PAIR|display._posix_raw_display.Screen._stop|restore leaves _signal_keys_set raised"),
     Mut("start-keeps-cached-screen-size", _M, "MainLoop.start", "        self.screen_size = None\n", "", "PASS|event_loop.main_loop.MainLoop.start|start() keeps the cached screen_size"),
     Mut("popup-keypress-stale-overlay", "urwid/widget/popup.py", "PopUpTarget.keypress", "        self._update_overlay(size, True)\n", "", "MEMO|widget.popup.PopUpTarget.keypress|keypress: _current_widget used without refreshing the overlay"),
     Mut("popup-mouse-stale-overlay", "urwid/widget/popup.py", "PopUpTarget.mouse_event", "        self._update_overlay(size, focus)\n", "", "MEMO|widget.popup.PopUpTarget.mouse_event|mouse_event: _current_widget used without refreshing the overlay"),
